@@ -214,6 +214,17 @@ def system_clock_events(n: int) -> list:
     from pyoda_time import SystemClock
 
     evs = []
+    # the operating-system clock may be stepped (NTP, manual change, VM resume): replace the OS time source by a stepping one
+    # and require the reported instant to follow it (the source is what "operating-system time" means to the process)
+    real = time.time_ns
+    try:
+        for step in (0, 3600 * 10**9, -86400 * 10**9, 123456789, 0):
+            base = real() + step
+            time.time_ns = lambda base=base: base
+            i = SystemClock.instance.get_current_instant()
+            evs.append({"op": "sys", "before": proj.t3_from_ns(base - base % 100), "res": proj.t3_instant(i), "after": proj.t3_from_ns(base), "stepped": step})
+    finally:
+        time.time_ns = real
     for _ in range(n):
         b = time.time_ns()
         i = SystemClock.instance.get_current_instant()
